@@ -174,17 +174,25 @@ func vfReceiverOverlap() func(s *vrt.Sched) (string, string, string) {
 		sm.SetLocalReceiverCancelFunc(src, func() { oldCancelled = true })
 		sm.RegisterActiveReceiver(src, oldR)
 		var panics []string
+		// order bookkeeping for the violation signature: did the old incarnation's unconditional removals run
+		// after the new incarnation had stored its entries?
+		newCancelSet, newReceiverSet := false, false
+		cancelRemovedAfterNew, receiverRemovedAfterNew := false, false
 		vfGuard(s, "old-exit", &panics, func() {
 			// the deferred cleanup of Run
 			sm.RemoveLocalAckChan(src, oldAck)
 			sm.RemoveLocalReceiverCancelFunc(src)
+			cancelRemovedAfterNew = newCancelSet
 			sm.UnregisterActiveReceiver(src)
+			receiverRemovedAfterNew = newReceiverSet
 		})
 		vfGuard(s, "new-entry", &panics, func() {
 			sm.TerminatePreviousLocalReceiver(src, logger)
 			sm.SetLocalAckChan(src, newAck)
 			sm.SetLocalReceiverCancelFunc(src, func() { newCancelled = true })
+			newCancelSet = true
 			sm.RegisterActiveReceiver(src, newR)
+			newReceiverSet = true
 		})
 		delivered := false
 		vfGuard(s, "deliver-ack", &panics, func() {
@@ -203,10 +211,18 @@ func vfReceiverOverlap() func(s *vrt.Sched) (string, string, string) {
 			return "orphaned/ack-channel-lost", fmt.Sprintf("localAckChannels[shard] is not the new incarnation's channel (present=%v)", ok), outcome
 		}
 		if r, ok := sm.GetActiveReceiver(src); !ok || r != ActiveReceiver(newR) {
-			return "orphaned/active-receiver-lost", fmt.Sprintf("the new receiver is alive but activeReceivers[shard] is %v (present=%v): the old incarnation's cleanup removed it, late target shards will not get its watermark replayed", r, ok), outcome
+			cause := "other-cause"
+			if receiverRemovedAfterNew {
+				cause = "old-cleanup-ran-after-new-entry"
+			}
+			return "orphaned/active-receiver-lost/" + cause, fmt.Sprintf("the new receiver is alive but activeReceivers[shard] is %v (present=%v) [%s]: late target shards will not get its watermark replayed", r, ok, cause), outcome
 		}
 		if f, ok := sm.GetLocalReceiverCancelFunc(src); !ok {
-			return "orphaned/cancel-func-lost", "the new receiver is alive but its cancel function is no longer registered: a later incarnation cannot terminate it", outcome
+			cause := "other-cause"
+			if cancelRemovedAfterNew {
+				cause = "old-cleanup-ran-after-new-entry"
+			}
+			return "orphaned/cancel-func-lost/" + cause, "the new receiver is alive but its cancel function is no longer registered [" + cause + "]: a later incarnation cannot terminate it", outcome
 		} else {
 			f()
 			if !newCancelled {
